@@ -195,6 +195,8 @@ impl WorkerPool {
 
         self.dispatched_count.fetch_add(1, Ordering::Relaxed);
 
+        #[cfg(feature = "verif-hooks")]
+        crate::verif_hooks::sched_point("dispatch_pre_send", &packet);
         if let Some(sender) = self.packet_senders.get(worker_id) {
             match sender.try_send(packet) {
                 Ok(()) => DispatchResult::Queued,
@@ -302,6 +304,8 @@ impl WorkerPool {
         tcp_flows: &mut TtlCache<FlowKey, TlsClientHelloReader>,
         filter: Option<&FilterConfig>,
     ) -> Result<Option<TlsClientOutput>, HuginnNetTlsError> {
+        #[cfg(feature = "verif-hooks")]
+        crate::verif_hooks::sched_point("worker_packet", packet);
         if let Some(filter_cfg) = filter {
             if !raw_filter::apply(packet, filter_cfg) {
                 debug!("Filtered out packet before parsing");
